@@ -164,8 +164,9 @@ Cmp(sorting, a, b) ==
              d == IF Head(sorting).desc THEN -c ELSE c
          IN IF d # 0 THEN d ELSE Cmp(Tail(sorting), a, b)
 
-ResultAllowed(files, q, sorting, limit, skip, res, more) ==
-    LET vis == VisibleStreams(files)
+\* restrict = set of stream ids the caller limits the search to ({} = no restriction)
+ResultAllowed(files, q, sorting, limit, skip, restrict, res, more) ==
+    LET vis == {s \in VisibleStreams(files) : restrict = {} \/ s.id \in restrict}
         must == {s \in vis : Eval3(q, s)[1]}
         may  == {s \in vis : Eval3(q, s)[2]}
         byId(i) == CHOOSE s \in vis : s.id = i
